@@ -315,6 +315,59 @@ def check_slow_case(case, st):
         st.violation('long-run:block-count', dict(d, got=len(MT.split_text(res.stdout))))
 
 
+# ---- big targets files (several hundred entries, tens of kilobytes; names of 20 and of 200 characters): every line is read, every entry
+# gets its result, and the status is that of the worst entry wherever it stands
+def bigfile_cases():
+    out = []
+    for n, namelen in ((300, 20), (450, 20), (700, 20), (40, 200), (45, 200), (120, 200)):
+        for last in ('CLEAN', 'REFUSED'):
+            for fmt in ('text', 'json'):
+                out.append(('bigfile', n, namelen, last, fmt))
+    return out
+
+
+def check_bigfile_case(case, st):
+    import socket as _s
+    from mc import runner, vnet
+    _k, n, namelen, last, fmt = case
+    servers, resolver, lines = {}, {}, []
+    for i in range(n):
+        # all entries but the last resolve to nothing (cheap), the last is a healthy server or refuses the connection
+        h = ('t%04d-' % i + 'x' * 300)[:namelen - 8] + '.example'
+        lines.append(h)
+        if i < n - 1:
+            resolver[h] = _s.gaierror(-2, 'Name or service not known')
+        else:
+            ip = '10.7.7.1'
+            resolver[h] = [(int(_s.AF_INET), ip)]
+            if last == 'CLEAN':
+                servers[(ip, 22)] = MT.ALL['CLEAN'](h)
+    w = vnet.World(servers=servers, resolver=resolver, budget=400000)
+    res, _sc = sched.run_scheduled(runner.run_cli, ['-n', '--skip-rate-test'] + (['-j'] if fmt == 'json' else []) + ['-T', MT.targets_file(lines), '--threads', '2'], w, (), ('connect',))
+    st.execution(res.world, outcome=('bigfile', res.status, fmt), root=case, nontrivial=case)
+    d = {'entries': n, 'name_length': namelen, 'file_bytes': sum(len(l) + 1 for l in lines), 'last_entry': last, 'fmt': fmt, 'status': res.status}
+    if res.hang or res.exc:
+        st.violation('big-targets-file:hang-or-escaped-exception', dict(d, hang=res.hang, exc=res.exc))
+        return
+    asked = len(set(r[0] for r in w.resolves))
+    if asked != n:
+        st.violation('big-targets-file:entries-never-looked-up', dict(d, names_resolved=asked))
+    if fmt == 'json':
+        try:
+            doc = json.loads(res.stdout)
+            got = len(doc) if isinstance(doc, list) else None
+        except ValueError:
+            got = None
+    else:
+        got = len(MT.split_text(res.stdout))
+    if got != n:
+        st.violation('big-targets-file:result-count', dict(d, results=got))
+    if res.status != 1:
+        st.violation('big-targets-file:exit-status', dict(d, expected=1))
+    if last == 'CLEAN' and 'aes256-gcm@openssh.com' not in res.stdout:
+        st.violation('big-targets-file:last-entry-lost-its-report', d)
+
+
 # ---- a target that sends part of its identification string late and then stays silent, next to healthy targets: it costs one timeout
 def partial_cases():
     out = []
@@ -521,6 +574,8 @@ def work(chunk, st):
             check_slow_case(case, st)
         elif case[0] == 'partial':
             check_partial_case(case, st)
+        elif case[0] == 'bigfile':
+            check_bigfile_case(case, st)
         elif case[0] == 'rate':
             check_rate_case(case, st)
         elif case[0] == 'samehost':
@@ -578,6 +633,7 @@ def cases(tier):
     out += samehost_cases()
     out += slow_cases()
     out += partial_cases()
+    out += bigfile_cases()
     out += mode_cases()
     return out
 
